@@ -26,7 +26,9 @@ MODULES = {
     "text_c04": ("src/encoder/text.rs", K / "text_c04.rs"),
     "misc_c17": ("src/histogram.rs", K / "misc_c17.rs"),
     "registry_c06": ("src/registry.rs", K / "registry_c06.rs"),
+    "registry_c09": ("src/registry.rs", K / "registry_c09.rs"),
     "vec_c05": ("src/vec.rs", K / "vec_c05.rs"),
+    "value_c05": ("src/value.rs", K / "value_c05.rs"),
     "desc_c15": ("src/desc.rs", K / "desc_c15.rs"),
     "desc_c09": ("src/desc.rs", K / "desc_c09.rs"),
     "atomic_c01": ("src/atomic64.rs", K / "atomic_c01.rs"),
@@ -155,7 +157,7 @@ PLAN = {
         level="model_checking",
         maps=True,
         text=True,
-        modules=["desc_c09", "vec_c05", "registry_c06", "text_c04", "hist_c08", "misc_c17"],
+        modules=["desc_c09", "registry_c09", "vec_c05", "registry_c06", "text_c04", "hist_c08", "misc_c17"],
         crate_modules=["__vrec"],
         contract_sets=["charset"],
         verus=[],
@@ -174,12 +176,12 @@ PLAN = {
         title="Only well-formed, pairwise distinct names reach an exposed sample",
         level="proof",
         maps=True,
-        modules=["desc_c09"],
+        modules=["desc_c09", "registry_c09"],
         crate_modules=["__vrec"],
         contract_sets=["charset"],
         verus=[],
         functions=[],
-        assumptions=[MAPS_ASSUMPTION, FMT_ASSUMPTION, SORT_ASSUMPTION, "Desc::new acceptance is decided for one const + one variable label with one-character names over all of ASCII plus concrete scenarios (bounded); the identifier validators are decided on strings of <= 4 chars with one arbitrary Unicode char; per-char classifiers for every char (complete)", "registry-level clause (prefix and common labels of Registry::new_custom are not validated and may clash with a metric's own labels) is NOT decided here: see DESIGN.md C09"],
+        assumptions=[MAPS_ASSUMPTION, FMT_ASSUMPTION, SORT_ASSUMPTION, "Desc::new acceptance is decided for one const + one variable label with one-character names over all of ASCII plus concrete scenarios (bounded); the identifier validators are decided on strings of <= 4 chars with one arbitrary Unicode char; per-char classifiers for every char (complete)", "registry-level clause: Registry::new_custom's validation of the prefix and of the common-label names is under contract (enumerated concrete names); that gather() applies them verbatim, and a clash between a common label and a metric's own label, are NOT decided (gather is out of reach)"],
     ),
     "C04": dict(
         title="Text exposition is a faithful, parseable rendering of the gathered state",
@@ -194,11 +196,11 @@ PLAN = {
         title="A metric vector keeps exactly one child per distinct label-value tuple",
         level="model_checking",
         maps=True,
-        modules=["vec_c05"],
+        modules=["vec_c05", "value_c05"],
         crate_modules=["__vrec"],
         verus=["c05_frame_injective.rs"],
         functions=[],
-        assumptions=[MAPS_ASSUMPTION, FMT_ASSUMPTION, "FnvHasher is replaced by a byte-stream recorder in the hash-level harnesses; A1: the 64-bit FNV-1a result is a function of the stream and distinct streams do not collide", "vector-logic harnesses instantiate MetricVecCore with a light builder defined in the harness (children remember what they were built from); the real builders' label contract (make_label_pairs) is a separate obligation"],
+        assumptions=[MAPS_ASSUMPTION, FMT_ASSUMPTION, "FnvHasher is replaced by a byte-stream recorder in the hash-level harnesses; A1: the 64-bit FNV-1a result is a function of the stream and distinct streams do not collide", "vector-logic harnesses instantiate MetricVecCore with a light builder defined in the harness (children remember what they were built from); the real builders are under separate obligations: make_label_pairs (label set = declared names x supplied values + const pairs, sorted) is under its own obligation; the builders themselves (Opts::describe -> Desc::new -> Value::new with a label: > 15 min under CBMC, measured; kani/counter_c05.rs kept but not registered) are not, so "starts from zero" rests on reading `P::T::from_i64(0)` in with_opts_and_label_values", SORT_ASSUMPTION],
     ),
     "C10": dict(
         title="Concurrent use of a metric vector is linearizable",
